@@ -18,7 +18,14 @@ def fl(lo, hi, **kw):
     no relative tolerance is meaningful for them and none of the properties concerns underflow (a thorough run of C11
     had flagged 5e-324 vs 0.0 with a tolerance that had itself underflowed to 0)."""
     kw.setdefault("allow_subnormal", False)
-    return st.floats(min_value=lo, max_value=hi, allow_nan=False, allow_infinity=False, **kw)
+    base = st.floats(min_value=lo, max_value=hi, allow_nan=False, allow_infinity=False, **kw)
+    zero_excluded = (lo == 0 and kw.get("exclude_min")) or (hi == 0 and kw.get("exclude_max"))
+    if lo <= 0.0 <= hi and not zero_excluded:
+        # Hypothesis likes "nasty" floats such as 2.2e-308 or 1e-82.  As coordinates, field values or parameters they
+        # are indistinguishable from 0 for every property, but their squares and fourth powers underflow on both
+        # sides of a comparison (C17 gyration, seed 3: two points 1.3e-82 apart -> nan vs nan).  Snap them to 0.0.
+        return base.map(lambda x: 0.0 if abs(x) < 1e-30 else x)
+    return base
 
 
 def nice_float(lo, hi):
